@@ -125,18 +125,25 @@ Definition exec_script (skip : Z) (rs : list rstep) : exec_result :=
   end.
 
 (* a test case may end the script early with a plain `exit <code>` that is not the skip code ([early = Some k]: test k
-   does): the tests before it have printed their dividers, it and the later ones have not.  The dividers that exist are
-   still scanned for the skip code BEFORE the missing ones make the document an execution error. *)
+   does): the tests before it have printed their dividers, it and the later ones have not.  The dividers that exist --
+   those of the test cases before the one that timed out, killed the shell or left the script -- are scanned for the skip
+   code FIRST: a test case that ended in the skip code skips the document whatever became of the script afterwards. *)
+Fixpoint before_stop (rs : list rstep) : list rstep :=
+  match rs with
+  | [] => []
+  | r :: t => match status r with Unknown | TimedOut | RunnerErr | ESkipped => [] | _ => r :: before_stop t end
+  end.
 Definition produced (rs : list rstep) (early : option nat) : list rstep :=
   match early with Some k => firstn k rs | None => rs end.
 Definition exec_script2 (skip : Z) (rs : list rstep) (early : option nat) : exec_result :=
   let p := produced rs early in
-  match script_first_stop p with
-  | Some r => match status r with TimedOut => ExTimeout true [r] | ESkipped => ExSkipped 0 | _ => ExFailed 0 end
-  | None => match find_skip skip p 0 with
-            | Some i => ExSkipped i
-            | None => match early with Some _ => ExFailed 0 | None => ExOk rs end
-            end
+  match find_skip skip (before_stop p) 0 with
+  | Some i => ExSkipped i
+  | None =>
+    match script_first_stop p with
+    | Some r => match status r with TimedOut => ExTimeout true [r] | ESkipped => ExSkipped 0 | _ => ExFailed 0 end
+    | None => match early with Some _ => ExFailed 0 | None => ExOk rs end
+    end
   end.
 
 (* ---------- the run: documents in order; an execution error ends the run with status 1 ---------- *)
